@@ -30,6 +30,10 @@ type Val struct {
 	I    int64  `json:"i,omitempty"`
 	F    uint64 `json:"f,omitempty"` // float bits (float4: float32 bits)
 	S    string `json:"s,omitempty"`
+	// SB (text-like types): the string value as raw bytes, used instead of S when non-nil - strings a
+	// handler writes need not be valid UTF-8 (legacy encodings, binary junk in a text column) and JSON
+	// cannot carry them in S
+	SB []byte `json:"sb,omitempty"`
 	Y    []byte `json:"y,omitempty"`
 	Bad  bool   `json:"bad,omitempty"` // a Go value no codec can encode
 	// Zone (date, timestamp, timestamptz): the time.Time the handler writes lives in a fixed zone this
@@ -66,6 +70,9 @@ func (v Val) Canon() any {
 	case "float8":
 		return math.Float64frombits(v.F)
 	case "text", "varchar", "name", "json", "jsonb", "bpchar", "custom":
+		if v.SB != nil {
+			return string(v.SB)
+		}
 		return v.S
 	case "bytea":
 		if v.Y == nil {
